@@ -36,3 +36,29 @@ pub open spec fn trim_ws_end(s: Seq<u8>) -> Seq<u8>
     decreases s.len()
 { if s.len() > 0 && is_ws(s.last()) { trim_ws_end(s.drop_last()) } else { s } }
 pub open spec fn trim_ws(s: Seq<u8>) -> Seq<u8> { trim_ws_end(trim_ws_start(s)) }
+
+// ---- trimming is idempotent (proved): a value trimmed twice is the value trimmed once ----
+pub proof fn lemma_trim_start_shape(s: Seq<u8>)
+    ensures trim_ws_start(s).len() == 0 || !is_ws(trim_ws_start(s)[0])
+    decreases s.len()
+{ if s.len() > 0 && is_ws(s[0]) { lemma_trim_start_shape(s.drop_first()); } }
+pub proof fn lemma_trim_end_shape(s: Seq<u8>)
+    ensures
+        trim_ws_end(s).len() == 0 || !is_ws(trim_ws_end(s).last()),
+        s.len() > 0 && !is_ws(s[0]) ==> trim_ws_end(s).len() > 0 && trim_ws_end(s)[0] == s[0],
+    decreases s.len()
+{ if s.len() > 0 && is_ws(s.last()) { lemma_trim_end_shape(s.drop_last()); } }
+pub proof fn lemma_trim_ws_idempotent(s: Seq<u8>)
+    ensures trim_ws(trim_ws(s)) == trim_ws(s)
+{
+    let t = trim_ws_start(s);
+    let u = trim_ws_end(t);
+    lemma_trim_start_shape(s);
+    lemma_trim_end_shape(t);
+    if t.len() > 0 {
+        assert(trim_ws_start(u) == u);
+        assert(trim_ws_end(u) == u);
+    } else {
+        assert(trim_ws_end(t) == t);
+    }
+}
